@@ -412,6 +412,10 @@ def event_id_walk(args):
         sent.clear()
         want = {"e1": 1, "e2": 1}
 
+        def pay(evn):
+            """the value of an event: one byte, or nothing at all for every fifth id (a payload-less event)"""
+            return b"" if evn % 5 == 0 else bytes([evn & 0xFF])
+
         def take(label, evs, dests):
             nonlocal n
             n += 1
@@ -424,7 +428,7 @@ def event_id_walk(args):
             for d in dests:
                 items = []
                 for evn in evs:
-                    items.append((0x8000 | evn, want[d], bytes([evn & 0xFF])))
+                    items.append((0x8000 | evn, want[d], pay(evn)))
                     want[d] = want[d] % 0xFFFF + 1
                 exp.append((d, None, tuple(items)))
             if sorted(got, key=repr) != sorted(exp, key=repr):
@@ -440,7 +444,7 @@ def event_id_walk(args):
             eg.values.clear()
             evs = (1, evn) if evn != 1 else (1,)
             for e in evs:
-                eg.values[e] = bytes([e & 0xFF])
+                eg.values[e] = pay(e)
             eg.notify_once(list(evs))
             loop.settle()
             ok = take(f"explicit round of the events {evs}", evs, ("e1",))
